@@ -97,6 +97,8 @@ def run_job(job):
     t0 = time.time()
     stats = Stats()
     try:
+        # the package prints advice ("you may be over-fitting") on stdout; workers report through their return value only
+        sys.stdout = open(os.devnull, "w")
         mod = load_prop(prop_id)
         part = mod.PARTS[part_idx]
         import hypothesis
